@@ -1045,6 +1045,53 @@ def sign_established(facts, N):
     return None
 
 
+def paths_agree(run, S, key, out_code, out_ref, rule, where=None, max_pairs=400):
+    """The code under test must return, on each of its paths, what a reference composition returns on every reference
+    path compatible with it (no condition decided the other way) - compared under the equalities of BOTH paths.  Lets the
+    code special-case inputs the reference does not (and vice versa) while a real difference is reported for the path."""
+    lc, lr = ret_leaves(out_code), ret_leaves(out_ref)
+    bad_kind = [l['k'] for g_, l in lc + lr if l['k'] not in ('ret', 'panic')]
+    if bad_kind:
+        run.ob(key + ':analysable', False, rule='analysable', expected='finite summaries', found=bad_kind[:3], where=where)
+        return False
+    cv = Conv(S)
+    problems = []
+    npairs = 0
+    for gc, leafc in lc:
+        if path_infeasible(S, gc):
+            continue
+        dc = {tid: want for kind, tid, want in gc}
+        for gr, leafr in lr:
+            if any(tid in dc and dc[tid] != want for kind, tid, want in gr):
+                continue
+            both = tuple(gc) + tuple(g for g in gr if g[1] not in dc)
+            if path_infeasible(S, both):
+                continue
+            npairs += 1
+            if npairs > max_pairs:
+                break
+            if leafc['k'] != leafr['k']:
+                problems.append('%s vs %s under %s' % (leafc['k'], leafr['k'], [S.show(t)[:50] for k_, t, w in both][:3]))
+                continue
+            if leafc['k'] != 'ret':
+                continue
+            with path_hyps(S, both):
+                a, b = flat(cv.val(leafc['v'])), flat(cv.val(leafr['v']))
+                if len(a) != len(b):
+                    problems.append('arity')
+                    continue
+                for i, (x, y) in enumerate(zip(a, b)):
+                    if isinstance(x, El) or isinstance(y, El):
+                        same = A.eq(el_of(x), el_of(y)) or equal_under(el_of(x), el_of(y), list(ACTIVE_PATH_DIFFS))
+                    else:
+                        same = x == y
+                    if not same:
+                        problems.append('component %d differs under %s' % (i, [S.show(t)[:50] for k_, t, w in both][:3]))
+                        break
+    run.ob(key, not problems and npairs >= 1, rule=rule, expected='equal on every pair of compatible paths (%d pairs)' % npairs, found=problems[:3] or 'equal', where=where)
+    return not problems
+
+
 def eq_tests(S, cv, kind, tid, want):
     """what a guard establishes about exact equality: [(a - b, True/False, text)] for `a == b` / `a != b` tests (if-form)
     and for `a.partial_cmp(&b)` (match-form: Equal -> True; Less, Greater, unordered -> False)"""
